@@ -154,7 +154,7 @@ def check_sub(cell, sub, ctx):
         # the difference itself, in both orders (its time component has either sign)
         dab, dba = R.subtract(ac, bc), R.subtract(bc, ac)
         d1 = env.call("subtract", lambda: A.subtract(B))
-        if not mp_ and d >= 3 and obs.system_of(d1)[1] in ("theta", "eta") and R.rho2(dab) < (mpf("1e-6") * (sca + scb)) ** 2:
+        if not mp_ and d >= 3 and obs.system_of(d1)[1] in ("theta", "eta") and R.rho2(dab) < (mpf("1e-3") * (sca + scb)) ** 2:
             # float64: a difference that cancels onto the z axis is ill-conditioned in theta / eta storage
             raise Skip("ill_conditioned_f64")
         env.check_representable(d1, dab, "subtract")
